@@ -28,12 +28,34 @@ def gen_c05w(tier: str, rng: random.Random) -> Iterator[Dict[str, Any]]:
         yield {"case": c17._mk("asyncio", reqs[0], app), "fam": "wsgi/none/%s/%s/asyncio" % (app["start"], app["ret"])}
 
 
+def gen_c16w(tier: str, rng: random.Random) -> Iterator[Dict[str, Any]]:
+    """C16, WSGI part: the same request and application shape through the asyncio and the trio adapter of the
+    same kind, with sends that return at once and with sends that suspend."""
+    reqs = c17.shape_requests()
+    shapes = c17.base_shapes() if tier == "quick" else c17.all_shapes()
+    k = 0
+    for app in shapes:
+        for kind in ("", "-mw"):
+            for slow in (False, True):
+                k += 1
+                if tier == "quick" and kind == "-mw" and k % 2:
+                    continue
+                req = reqs[k % len(reqs)]
+                pair = [dict(c17._mk(w + kind, req, app), slow_send=slow) for w in ("asyncio", "trio")]
+                yield {"pair": pair, "fam": "wsgi-pair/%s/%s/%s/%s%s" % (app["raise_at"], app["start"], app["ret"],
+                                                                        "worker" if not kind else "middleware",
+                                                                        "/slow-sends" if slow else "")}
+
+
 def _run_chunk(chunk: List[Dict[str, Any]]) -> List[Any]:
     import traceback
 
     out: List[Any] = []
     for sc in chunk:
         try:
+            if "pair" in sc:
+                out.append(c17.run_case(sc["pair"][0]) + c17.run_case(sc["pair"][1]))
+                continue
             out.append(c17.run_case(sc["case"]))
         except BaseException as error:  # noqa: BLE001 - reported as a machinery failure by the pipeline
             out.append({"harness_error": "".join(traceback.format_exception(error))[-2000:]})
